@@ -361,6 +361,9 @@ package types
 //@ func (*Project).WithServicesTransform
 //@   nopanic[C14]
 //@   requires fn != nil
+// C19 no deadlock: every worker can deliver its result without a reader (the collector stops reading once the
+// group's context is cancelled), so the result channel is buffered for one result per service
+//@   callsite[C19] make(chan) : arg0 == len(p.Services)
 //@ func (*Project).WithServicesTransform$1
 //@   except nilderef#3, nilderef#5, panic#1 : undischarged on the reference tree (engine limit or missing callee contract), not claimed
 //@   nopanic[C14]
